@@ -481,3 +481,63 @@ Proof.
 Qed.
 
 End Seq.
+
+(* ---- statements used by Properties_C08.v ---- *)
+Lemma seq_refines_fifo n ops : 1 <= n < 2147483648 -> fifo_ok (hinit n) [] ops.
+Proof. intros H. apply (fifo_ok_inv n H). apply init_inv. exact H. Qed.
+
+Lemma seq_reachable_facts n ops : 1 <= n < 2147483648 ->
+  let h := fst (reach (hinit n) [] ops) in let q := snd (reach (hinit n) [] ops) in
+  h = fst (run (hinit n) ops) /\
+  snd (step h OFetch) = expected_fetch q /\
+  Forall (fun m => Z.of_nat (length (m_data m)) = m_nb m /\ 1 <= m_nb m) q.
+Proof.
+  intros H h q. pose proof (reach_inv n H ops (hinit n) [] (init_inv n H)) as I. fold h q in I.
+  split; [apply reach_run|]. split; [apply (fetch_spec n); auto|].
+  apply Forall_forall. intros m Hin. split; [apply (msg_len n h q m I Hin)|].
+  destruct I as [[In Il Iw Ir Ic Iok Ish] _ _]. destruct (free_area n _ _ _ Ic Iw Ir Ish Hin). tauto.
+Qed.
+
+Lemma alloc_no_overlap n ops nb h' off : 1 <= n < 2147483648 ->
+  let h := fst (reach (hinit n) [] ops) in let q := snd (reach (hinit n) [] ops) in
+  step h (OAlloc nb) = (h', RAlloc (Some off)) ->
+  let a := wcur (hr h') in let need := cal_cachelines nb in
+  off = CL * a + HDR /\ 0 <= a /\ a + need <= n - 1 /\ off + nb <= CL * (a + need - 2) /\
+  Forall (fun m => m_at m + m_nc m <= a \/ a + need <= m_at m) q /\
+  (forall p, live_marker (hr h') q p -> a + need <= p).
+Proof.
+  intros H h q E. pose proof (reach_inv n H ops (hinit n) [] (init_inv n H)) as I. fold h q in I.
+  pose proof (step_inv n H h q (OAlloc nb) I) as I'. rewrite E in I'. cbn [fst gstep] in I'.
+  apply (pend_region_free n h' q off nb I').
+  unfold step in E. destruct ((1 <=? nb) && (nb <? 2147483648)); [|discriminate].
+  destruct (w_alloc_bytes (hr h) nb) as [s' [o|]]; inversion E; subst; reflexivity.
+Qed.
+
+Lemma indices_in_range n ops : 1 <= n < 2147483648 ->
+  let h := fst (run (hinit n) ops) in
+  0 <= wcur (hr h) <= n - 1 /\ 0 <= rcur (hr h) <= n - 1 /\ 0 <= crem (hr h) /\
+  wcur (hr h) + crem (hr h) <= n - 1 /\ Z.of_nat (length (mem (hr h))) = CL * n /\
+  (forall off nb bytes, snd (step h OFetch) = RFetch (Some (off, nb, bytes)) ->
+     exists l, off = CL * l + HDR /\ 0 <= l /\ 1 <= nb /\ off + nb <= CL * (l + cal_cachelines nb - 2) /\
+               l + cal_cachelines nb <= n).
+Proof.
+  intros H h. pose proof (reach_inv n H ops (hinit n) [] (init_inv n H)) as I.
+  rewrite (reach_run ops (hinit n) []) in I. fold h in I. set (q := snd (reach (hinit n) [] ops)) in *.
+  pose proof (crem_room n _ _ (i_ring n _ _ I)) as Room.
+  pose proof (fetch_spec n h q I) as F. pose proof I as I0.
+  destruct I as [[In Il Iw Ir Ic Iok Ish] _ _]. repeat split; auto; try lia.
+  intros off nb bytes E. rewrite F in E. unfold expected_fetch in E. destruct q as [|m q']; [discriminate|].
+  inversion E; subst. exists (m_at m).
+  destruct (free_area n _ _ m Ic Iw Ir Ish (or_introl eq_refl)) as (A & B & C & D).
+  pose proof (cal_bounds _ A) as (K1 & K2 & K3). unfold m_nc in *. repeat split; auto; unfold CL, HDR in *; lia.
+Qed.
+
+(* non-vacuity: on a ring of 8 lines the third message wraps (marker at line 6, allocation at offset 8
+   while the reader is at line 3) and is delivered after the second, byte for byte *)
+Example seq_nonvacuous :
+  snd (run (hinit 8) [OAlloc 1; OWrite 0 [5]; OCommit; OAlloc 2; OWrite 0 [6; 7]; OCommit; OFetch; ORMove;
+                      OAlloc 3; OWrite 0 [8; 9; 10]; OCommit; OFetch; ORMove; OFetch; ORMove; OFetch]) =
+  [RAlloc (Some 8); RDone; RDone; RAlloc (Some 200); RDone; RDone; RFetch (Some (8, 1, [5])); RDone;
+   RAlloc (Some 8); RDone; RDone; RFetch (Some (200, 2, [6; 7])); RDone; RFetch (Some (8, 3, [8; 9; 10])); RDone;
+   RFetch None].
+Proof. vm_compute. reflexivity. Qed.
